@@ -81,6 +81,24 @@ func (r *Runner) execStat(a []string) string {
 			switch {
 			case ops[0] == "new":
 				ops = ops[1:]
+			case (ops[0] == "addcount" || ops[0] == "addsum") && len(ops) >= 2:
+				k, ok := parseF(ops[1])
+				if !ok {
+					out = "bad-op"
+					return
+				}
+				if ops[0] == "addcount" {
+					st.AddToCount(k)
+					if clean && !math.IsNaN(k) && st.Count() != cur[0]+k {
+						r.oracleFail("stat-add", fmt.Sprintf("AddToCount(%v) on %v gives %v", k, cur[0], st.Count()))
+					}
+				} else {
+					st.AddToSum(k)
+					if clean && !math.IsNaN(k) && !math.IsInf(k, 0) && st.Sum() != cur[1]+k {
+						r.oracleFail("stat-add", fmt.Sprintf("AddToSum(%v) on %v gives %v", k, cur[1], st.Sum()))
+					}
+				}
+				ops = ops[2:]
 			case ops[0] == "rescale" && len(ops) >= 2:
 				k, ok := parseF(ops[1])
 				if !ok {
